@@ -287,6 +287,19 @@ def run_calls(task):
                 box, params = gen.gen_call(rnd, name, opts)
                 if task.get("points") and rnd.random() < task["points"]:
                     box = [[v, v] for v in (rnd.randint(a, b) for a, b in box)]
+                elif opts.get("almost_ground"):
+                    # all but 1-3 variables instantiated (preferably on a satisfying tuple): long argument lists whose box is
+                    # still small enough for the enumerating oracles (hull, entailment) to be exact
+                    t = None
+                    for _ in range(25):
+                        cand = tuple(rnd.randint(a, b) for a, b in box)
+                        if t is None:
+                            t = cand
+                        if (name not in ("no_sub_cycle", "scc") or O.is_permutation(cand)) and O.SEM[name](cand, params):
+                            t = cand
+                            break
+                    free = set(rnd.sample(range(len(box)), min(len(box), rnd.randint(1, opts["almost_ground"]))))
+                    box = [list(box[k]) if k in free else [t[k], t[k]] for k in range(len(box))]
                 judge_call(col, name, box, params, lb, hull_limit=task.get("hull_limit", callcheck.HULL_LIMIT))
                 if (col.evals & 255) == 0 and time.time() > deadline:
                     truncated = True
